@@ -48,9 +48,9 @@ var limits = map[string]float64{
 	"inverse-forward":             1000, // 3.24  max|X - A^-1| / (n u cond_inf max|A^-1|)
 
 	// scalars
-	"logdet":          1000, // 4.42  |logdet - ref| / (n u cond_inf (1+|logdet|) k)
-	"det":             1000, // 4.46  |det - ref| / (n u cond_inf (1+|logdet|) |ref| k)
-	"logdet-pairwise": 100,  // 0.069 |logdet_i - logdet_j| / (2 n u cond_inf (1+|logdet|))
+	"logdet":          1000, // 9.08  |logdet - ref| / (n u cond_inf (1+|logdet|) k)
+	"det":             1000, // 9.09  |det - ref| / (n u cond_inf (1+|logdet|) |ref| k)
+	"logdet-pairwise": 1000, // 1.49  |logdet_i - logdet_j| / (2 n u cond_inf (1+|logdet|))
 	"svd-cond":        100,  // 0.72  |cond - ref| / (max(m,n) u cond^2)
 	// Condition estimates. The upper side is a mathematical bound (the
 	// LAPACK estimators return a lower bound of the norm of the inverse of
@@ -62,8 +62,10 @@ var limits = map[string]float64{
 	"cond-underestimate":      1500, // 10.7  rigorous lower bound of the estimated quantity / Cond()
 
 	// matrix functions
-	"exp-general":       1000, // 2.29  max|X - e^A| / (n u (1+|A|_1) e^|A|_1)
-	"exp-normal":        1000, // 2.69  max|X - e^A| / (n^1.5 u (1+|A|_1) max|e^A|)
-	"pow-componentwise": 100,  // 0.56  max_ij |X - A^p|_ij / (n p u (|A|^p)_ij)
-	"powpsd":            100,  // 0.43  max|X - V W^p Vt| / (n u (1+|p|) cond_2 |A^p|_inf)
+	"exp-skew-orthogonal": 1000, // 1.97   max|Xt X - I| / (n u (1+|A|_1)), A skew-symmetric
+	"exp-commuting-pair":  1000, // 1.84   max|e^(A+B) - e^A e^B| / (n u (1+|A|_1+|B|_1) e^(|A|_1+|B|_1)), B = cA^2+dI
+	"exp-general":         1000, // 2.29  max|X - e^A| / (n u (1+|A|_1) e^|A|_1)
+	"exp-normal":          1000, // 3.42  max|X - e^A| / (n^1.5 u (1+|A|_1) max|e^A|)
+	"pow-componentwise":   100,  // 0.56  max_ij |X - A^p|_ij / (n p u (|A|^p)_ij)
+	"powpsd":              100,  // 0.43  max|X - V W^p Vt| / (n u (1+|p|) cond_2 |A^p|_inf)
 }
